@@ -8,7 +8,7 @@
 
   * `classification_from_source` (decide over the complete regenerated table): every function of the table is
     classified by hand, and its regenerated summary FITS the summary of that class — every source the extractor
-    found for every component is one the class allows.  `Mesh.Transform` (dynamic dispatch) is the one named exception.
+    found for every component is one the class allows.  `Mesh.Transform` and two transformers (dynamic dispatch / two-result callee) are the named exceptions.
   * `class_realises`: for all states, the model's operation of a class produces a mesh whose components come from
     exactly where `Cls.spec` says (same slice header / same map object as the argument's, or allocated in this step).
 -/
@@ -32,15 +32,15 @@ def rowOK (s : FnSummary) : Bool :=
 
 /-- THE CLASSIFICATION IS DERIVED FROM THE SOURCE: every exported Mesh-returning function of modeling/mesh.go
     (complete regenerated table) has the sharing behaviour of the model class it is assigned to. -/
-theorem classification_from_source : ∀ s ∈ Gen.C01Classes.table, rowOK s = true := by decide
+theorem classification_from_source : ∀ s ∈ Gen.C01Classes.table, rowOK s = true := by decide +kernel
 
 /-- the table is the complete list the extractor saw, and it is not empty -/
 theorem classification_covers : Gen.C01Classes.table.length = Gen.C01Classes.functionsSummarised ∧
-    70 ≤ Gen.C01Classes.table.length := by decide
+    100 ≤ Gen.C01Classes.table.length := by decide
 
 /-- no classified function has an `unknown` source anywhere -/
 theorem classification_no_unknown : ∀ s ∈ Gen.C01Classes.table, notOneOperation.contains s.name = false →
-    ∀ c ∈ s.comps, c.obj.contains .unknown = false ∧ c.ent.contains .unknown = false := by decide
+    ∀ c ∈ s.comps, c.obj.contains .unknown = false ∧ c.ent.contains .unknown = false := by decide +kernel
 
 /-- closed witnesses that the comparison discriminates: an `Append` whose indices are the receiver's slice (what
     `append(m.indices, …)` amounts to when the extractor can see through it; otherwise it reports `unknown`) or are `unknown`
